@@ -443,10 +443,14 @@ class Gen:
         self.names = list(self.info)
         self.nss = [n['name'] for n in schema['nss']]
         self.dirty = False
+        self.fault_rate = 0.2
+        self.calm = False
         self.pool = []       # instance descriptors that were (tried to be) created: {'ns','cls','keys':[(n,t,v)],'props'}
 
     def ns_variant(self, ns):
         r = self.rng.random()
+        if self.calm:
+            r *= 0.9
         if r < 0.70:
             return ns
         if r < 0.88:
@@ -463,6 +467,8 @@ class Gen:
 
     def cls_variant(self, name):
         r = self.rng.random()
+        if self.calm:
+            r *= 0.88
         if r < 0.65:
             return name
         if r < 0.85:
@@ -656,14 +662,14 @@ class Gen:
         else:
             props.append({'n': 'Undeclared', 't': 'string', 'a': False, 'v': 'u'})
 
-    def op_create(self):
+    def op_create(self, force_cls=None, force_ns=None):
         rng = self.rng
-        cn = rng.choice(self.names)
-        if self.info[cn]['assoc'] and rng.random() < 0.85 and \
+        cn = force_cls or rng.choice(self.names)
+        if force_cls is None and self.info[cn]['assoc'] and rng.random() < 0.85 and \
                 len([d for d in self.pool if not self.info[d['cls']]['assoc']]) < 2:
             cn = rng.choice([n for n in self.names if not self.info[n]['assoc']])
         c = self.info[cn]
-        ns = rng.choice(self.nss)
+        ns = force_ns or rng.choice(self.nss)
         props, keys = [], []
         dup = None
         self.dirty = False
@@ -691,7 +697,7 @@ class Gen:
         for p in props:
             if rng.random() < 0.15:
                 p['n'] = recase(rng, p['n'])
-        self.fault(props, 0.2)
+        self.fault(props, self.fault_rate)
         rng.shuffle(props) if rng.random() < 0.3 else None
         icls = self.cls_variant(cn)
         nsarg = self.opt_ns(ns)
@@ -760,6 +766,42 @@ class Gen:
     def history(self):
         n = self.rng.randint(4, 25)
         return [self.op_any() for _ in range(n)]
+
+    def multins_history(self):
+        """directed stream: association instances whose ends lie in other namespaces, then operations on every copy"""
+        rng = self.rng
+        assocs = [n for n in self.names if self.info[n]['assoc']]
+        plain = [n for n in self.names if not self.info[n]['assoc']]
+        if len(self.nss) < 2 or not assocs or not plain:
+            return self.history()
+        ops = []
+        self.fault_rate = 0.05
+        self.calm = True
+        for _ in range(rng.randint(2, 5)):                       # end points in at least two namespaces
+            ops.append(self.op_create(force_cls=rng.choice(plain), force_ns=rng.choice(self.nss[:2] if rng.random() < 0.8 else self.nss)))
+        for _ in range(rng.randint(1, 3)):
+            ops.append(self.op_create(force_cls=rng.choice(assocs), force_ns=rng.choice(self.nss)))
+        whole = self.pool
+        for _ in range(rng.randint(5, 14)):
+            r = rng.random()
+            only_assoc = [d for d in whole if self.info[d['cls']]['assoc']]
+            self.pool = only_assoc if only_assoc and 0.12 <= r < 0.75 else whole
+            if r < 0.12:
+                ops.append(self.op_create(force_cls=rng.choice(assocs), force_ns=rng.choice(self.nss)))
+            elif r < 0.40:
+                ops.append(self.op_modify())
+            elif r < 0.60:
+                ops.append({'op': 'delete', 'path': self.some_path()})
+            elif r < 0.80:
+                ps = self.some_path()
+                ops.append({'op': 'get', 'path': ps, 'pl': self.proplist(self.info.get(ps['cls']))})
+            else:
+                ops.append({'op': rng.choice(['names', 'enum', 'names']), 'ns': self.opt_ns(rng.choice(self.nss)),
+                            'cls': self.cls_variant(rng.choice(assocs)), 'di': None, 'pl': None})
+                if ops[-1]['op'] == 'names':
+                    del ops[-1]['di'], ops[-1]['pl']
+            self.pool = whole
+        return ops
 
 
 def gen_schema(rng, mofs):
@@ -1277,7 +1319,7 @@ def make_cases(rng, n, thorough):
     for i in range(n):
         schema = gen_schema(rng, mofs)
         g = Gen(rng, schema, thorough)
-        items.append((schema, g.history()))
+        items.append((schema, g.multins_history() if i % 5 == 4 else g.history()))
     return items
 
 
